@@ -23,6 +23,22 @@ CLAIMED = {
         "universe, not beyond it); harness term printer. No axioms (Print Assumptions: closed).",
         "DESIGN.md section 5, C11",
     ),
+    "C02": (
+        "Coq/MathComp proofs over generic commutative rings (convolution on the cyclic group Z_d; kron/reshape route = "
+        "matrix product on 'M_s) about a hand-written executable model; correspondence check of model vs implementation "
+        "evaluated in Coq at Z on complete bases + probes",
+        "Theorems for every commutative ring, every dimension and all vectors: HRR bind is the circular-convolution sum, "
+        "commutative, associative, bilinear, rejects unequal lengths; VTB/TVTB bind computes sqrt(s)*A*B^T resp. sqrt(s)*A*B "
+        "through the code's kron(eye,reshape) route, bilinear, rejects unequal / non-square sizes, valid d iff positive square; "
+        "binding matrices for both swap_inputs values and inversion matrices equal the direct operation; superposition is "
+        "pointwise. Tie: all d*d basis pairs (d<=12 HRR, squares<=16; thorough 24/25), column families and random integer "
+        "probes for d<=32 (64), both matrix forms, all sidedness values, is_valid_dimensionality on a range; floats compared "
+        "in Coq as exact dyadics against the model at Z with sqrt handled by integer square roots.",
+        "Trusted: Coq kernel + vm_compute; models Model/Hrr.v, Model/Vtb.v (bind is modelled by its defining sum, NumPy's "
+        "FFT is observed only through results; the 3-axis transpose of get_inversion_matrix is modelled by its index formula); "
+        "float rounding bounded by tolerance 1e-9, not modelled; harness. No axioms.",
+        "DESIGN.md section 5, C02",
+    ),
 }
 
 NOT_YET = "not yet built in this revision of /verif (design in DESIGN.md section 5); no check is claimed"
